@@ -508,6 +508,9 @@ class Ev:
             ks = {vkey(x) for _, x in v.alts}
             if len(ks) == 1:
                 return v.alts[0][1]
+            b = boolify(v)
+            if b is not None:
+                return b
             vals = [x for _, x in v.alts]
             if all(isinstance(x, Rec) and x.adt in NUMERIC_ADTS for x in vals) and len({x.adt for x in vals}) == 1:
                 def sans(x):
@@ -612,7 +615,8 @@ class Ev:
             if isinstance(v, Sym) and v.tag[:1] == ("bool",):
                 return Sym("bool", "false" if v.tag[1] == "true" else "true")
             if isinstance(v, Alt) and all(isinstance(x, Sym) and x.tag[:1] == ("bool",) for _, x in v.alts):
-                return Alt([(g, Sym("bool", "false" if x.tag[1] == "true" else "true")) for g, x in v.alts])   # !matches!(..)
+                flipped = Alt([(g, Sym("bool", "false" if x.tag[1] == "true" else "true")) for g, x in v.alts])   # !matches!(..)
+                return boolify(flipped) or flipped
             return Sym("not", vkey(v))
         raise Unsupported("unary " + e["op"])
 
@@ -705,6 +709,11 @@ class Ev:
             other = r if (isinstance(l, Sym) and l.tag[:2] == ("ctor", "None")) else l
             t = Sym("m", "is_none", vkey(other), ())
             return t if op == "Eq" else Sym("not", vkey(t))
+        if op in ("Eq", "Ne") and all(isinstance(v, Sym) and v.tag[0] == "ctor" for v in (l, r)) and (l.tag[1] != r.tag[1] or (len(l.tag) == 2 and len(r.tag) == 2)) \
+                and not all(v.tag[1] in ("Some", "None") for v in (l, r)):
+            # derived equality of enum values whose variants are known: different variants are unequal, the same unit variant is equal
+            same = l.tag[1] == r.tag[1]
+            return Sym("bool", "true" if (same == (op == "Eq")) else "false")
         if op in ("Eq", "Ne") and all(isinstance(v, Sym) and v.tag[0] == "ctor" and v.tag[1] in ("Some", "None") for v in (l, r)):
             # derived equality of Option: same constructor and equal payloads
             if l.tag[1] != r.tag[1]:
@@ -715,6 +724,19 @@ class Ev:
                 inner = re.sub(r"^.*?Option<(.*)>$", r"\1", (e["l"].get("ty") or "").replace("&", "").strip())
                 return cmp_sym(op, l.tag[2], r.tag[2], inner in INT_TYPES)
         if op in ("Eq", "Ne"):
+            callee = e.get("resolved") or e.get("callee") or ""
+            if callee and not callee.startswith(("std::", "core::")):
+                # `a == b` on in-crate types is the in-crate `PartialEq::eq` — the same call as `a.eq(&b)`
+                v = None
+                for suffix, h in self.hooks.items():
+                    if not suffix.startswith("@") and callee.endswith(suffix):
+                        v = h(self, [l, r], e)
+                        break
+                rec_ = self.facts.fn(callee)
+                if v is None and rec_ is not None and "PartialEq" not in (rec_.get("mac") or []):     # a derived impl is structural equality: kept as `==`
+                    v = self.apply_fn(callee, [l, r], depth)
+                if v is not None:
+                    return v if op == "Eq" else (Sym("bool", "false" if v.tag[1] == "true" else "true") if isinstance(v, Sym) and v.tag[:1] == ("bool",) else Sym("not", vkey(v)))
             return eq_sym(l, r) if op == "Eq" else Sym("not", vkey(eq_sym(l, r)))
         if op in ("Lt", "Le", "Gt", "Ge"):
             return Sym("cmp", op, vkey(l), vkey(r))
@@ -1405,7 +1427,7 @@ class Ev:
                 del self.path[len(self.path) - len(gt):]
         if alts and all(isinstance(x, EarlyRet) for _, x in alts):
             raise Return(Alt([(g, x.value) for g, x in alts]))
-        return Alt(alts)
+        return boolify(Alt(alts)) or Alt(alts)
 
     def search_loop(self, x):
         """(condition expr, "true"/"false") if the `for` body is exactly `if COND { return <bool literal>; }`."""
@@ -1519,6 +1541,10 @@ class Ev:
         if isinstance(b, Coll) and isinstance(i, Poly) and i.order == 0:
             return b.seq.fn(i)              # element i of a collected sequence is the sequence's element function at i
         if isinstance(i, Poly) and i.order == 0:
+            ety = (e.get("ty") or "").replace("&", "").replace("mut ", "").strip()
+            el = self.elem_of(b) if (isinstance(b, Sym) and ("::" in ety or ety in ("str", "String"))) else None       # a named type, not a number / type parameter
+            if callable(el):
+                return el(i)               # element i of an opaque container of non-numeric things: the same value a `for x in &c` loop sees
             return Poly.atom(("call", "index", (vkey(b), i.key())))
         return Poly.atom(("call", "index", (vkey(b), vkey(i))))
 
@@ -1916,10 +1942,46 @@ def canon_seq(seq):
     if isinstance(src, tuple) and src[:2] == ("sym", "zip") and isinstance(src[3], tuple) and src[3][:2] == ("sym", "skip") and src[3][2] == src[2]:
         n = Poly.atom(("len", src[2], None)) - poly_from_key(src[3][3])
         return Seq(Sym("range", Poly.const(0).key(), n.key()), seq.fn, seq.enumerated)
+    if isinstance(src, tuple) and src[:2] == ("sym", "range") and src[2] == Poly.const(0).key():
+        n = poly_from_key(src[3])
+        if len(n.t) == 1:
+            ((mono, tens), coef), = n.t.items()
+            if coef == 1 and tens is None and len(mono) == 1 and mono[0][1] == 1 and isinstance(mono[0][0], tuple) and mono[0][0][:1] == ("len",) and mono[0][0][2] is None:
+                # `for i in 0..c.len()` walks c itself (the body reaches the elements as c[i])
+                return Seq(Sym(*mono[0][0][1][1:]) if isinstance(mono[0][0][1], tuple) and mono[0][0][1][:1] == ("sym",) else seq.src, seq.fn, seq.enumerated)
     if isinstance(src, tuple) and src[:2] == ("sym", "range") and src[2] != Poly.const(0).key():
         a, b = poly_from_key(src[2]), poly_from_key(src[3])
         return Seq(Sym("range", Poly.const(0).key(), (b - a).key()), lambda idx, f0=seq.fn, a=a: f0(idx + a), seq.enumerated)
     return seq
+
+
+def guard_value(g):
+    """The boolean value a guard tests, as a symbolic value (None if the guard has no value form)."""
+    if isinstance(g, tuple) and len(g) == 2 and g[0] == "not":
+        inner = guard_value(g[1])
+        if inner is None:
+            return None
+        if isinstance(inner, Sym) and inner.tag[:1] == ("not",) and isinstance(inner.tag[1], tuple) and inner.tag[1][:1] == ("sym",):
+            return Sym(*inner.tag[1][1:])
+        return Sym("not", vkey(inner))
+    if isinstance(g, tuple) and len(g) == 2 and g[0] == "if" and isinstance(g[1], tuple) and g[1][:1] == ("sym",):
+        return Sym(*g[1][1:])
+    if isinstance(g, tuple) and len(g) == 3 and g[0] == "arm":
+        if g[1] == ("Some", "_"):
+            return Sym("not", vkey(Sym("m", "is_none", g[2], ())))
+        if g[1] == "None":
+            return Sym("m", "is_none", g[2], ())
+        return Sym("armtest", g[1], g[2])
+    return None
+
+
+def boolify(v):
+    """`if c { true } else { false }` / `matches!(x, P)` as a value is the test itself."""
+    if isinstance(v, Alt) and len(v.alts) == 2:
+        (g1, b1), (g2, b2) = v.alts
+        if g2 == neg_guard(g1) and all(isinstance(b, Sym) and b.tag[:1] == ("bool",) for b in (b1, b2)) and b1.tag[1] != b2.tag[1]:
+            return guard_value(g1 if b1.tag[1] == "true" else g2)
+    return None
 
 
 def arm_guard(pat, scrut):
@@ -1930,6 +1992,9 @@ def arm_guard(pat, scrut):
         op = {"Less": "Lt", "Equal": "Eq", "Greater": "Gt"}.get(name)
         if op:
             return ("if", vkey(cmp_sym(op, poly_from_key(scrut.tag[1]), Poly.const(0), True)))
+    if pat.get("k") == "lit" and str(pat.get("v")) in ("true", "false"):
+        g = guard_of(scrut)                       # `match flag { true => .., false => .. }` is `if flag {..} else {..}`
+        return g if str(pat["v"]) == "true" else neg_guard(g)
     return ("arm", pat_key(pat), vkey(scrut))
 
 
@@ -1959,6 +2024,14 @@ def guard_of(cv):
         (g1, b1), (g2, b2) = cv.alts
         if g2 == neg_guard(g1) and all(isinstance(b, Sym) and b.tag[:1] == ("bool",) for b in (b1, b2)) and b1.tag[1] != b2.tag[1]:
             return g1 if b1.tag[1] == "true" else neg_guard(g1)
+    if isinstance(cv, Sym) and cv.tag[:2] == ("m", "is_none") and len(cv.tag) == 4 and cv.tag[3] == ():
+        return ("not", ("arm", ("Some", "_"), cv.tag[2]))          # `if x.is_none()` tests what `match x { None => .. }` tests
+    if isinstance(cv, Sym) and cv.tag[:1] == ("not",) and isinstance(cv.tag[1], tuple) and cv.tag[1][:3] == ("sym", "m", "is_none") and cv.tag[1][4] == ():
+        return ("arm", ("Some", "_"), cv.tag[1][3])
+    if isinstance(cv, Sym) and cv.tag[:1] == ("armtest",):
+        return ("arm", cv.tag[1], cv.tag[2])
+    if isinstance(cv, Sym) and cv.tag[:1] == ("not",) and isinstance(cv.tag[1], tuple) and cv.tag[1][:2] == ("sym", "armtest"):
+        return ("not", ("arm", cv.tag[1][2], cv.tag[1][3]))
     if isinstance(cv, Sym) and cv.tag[:1] == ("not",) and isinstance(cv.tag[1], tuple) and cv.tag[1][:1] == ("sym",):
         return ("not", ("if", cv.tag[1]))          # `if !c {A} else {B}` branches on c
     return ("if", vkey(cv))
